@@ -844,6 +844,10 @@ func ConvertSpatialIDsToQuadkeysAndVerticalIDs(spatialIDs []string, outputHZoom 
 	extendedSpatialIDs := []string{}
 	for _, spatialID := range spatialIDs {
 		spatialIDValue := strings.Split(spatialID, "/")
+		if len(spatialIDValue) != 4 {
+			// 空間IDの成分数が4つでない場合はフォーマット不正
+			return []*object.FromExtendedSpatialIDToQuadkeyAndVerticalID{}, errors.NewSpatialIdError(errors.InputValueErrorCode, "")
+		}
 		// 水平精度/xインデックス/yインデックス/垂直精度/高さのインデックス に並び替える
 		extendedSpatialIDs = append(extendedSpatialIDs, spatialIDValue[0]+"/"+spatialIDValue[2]+"/"+spatialIDValue[3]+"/"+spatialIDValue[0]+"/"+spatialIDValue[1])
 	}
